@@ -37,7 +37,8 @@ def countScan (text : Bytes) (sfx : String) : String × Option (List Cell) :=
           (s!"C{sfx} {count} W{sfx} model:overrun:{cells.length}", none)
         else
           let cellsTxt := String.join (cells.map (fun c => " " ++ showCellT c))
-          (s!"C{sfx} {count} W{sfx} {n} R{sfx} {rd}/{text.length} V{sfx}{cellsTxt}", some cells)
+          let rdTxt := if sfx ≠ "" ∧ rd = text.length then "ok" else s!"{rd}/{text.length}"
+          (s!"C{sfx} {count} W{sfx} {n} R{sfx} {rdTxt} V{sfx}{cellsTxt}", some cells)
 
 /-- a range with a count ≤ 0 outside of an array: the print / rescan part is skipped
     (see harness/scan.cpp) -/
